@@ -33,6 +33,15 @@ type ctx struct {
 	strExtSeen map[string]bool
 	wrap64 bool // int mode: 64-bit arithmetic wraps (exact) instead of producing overflow obligations
 	facts []symFact // facts about heap symbols (value ranges), rendered when the symbol is used
+	iptrs map[string]iptrInfo // interior-pointer encodings: function name -> (base type, field path)
+	wideBitFns map[string]int // int mode: uninterpreted bitwise functions on wide unsigned values -> width
+}
+
+// an interior pointer &obj.f1.f2 that escapes to memory is the term iptr_k(ref): an uninterpreted function of the
+// object reference, decoded again by ptrOf / pointees()
+type iptrInfo struct {
+	base types.Type
+	path []pathEl
 }
 
 type symFact struct {
@@ -704,6 +713,16 @@ func (c *ctx) arith(op token.Token, x, y *T, t types.Type, ovf *[]overflowCheck)
 			return app("+", "Int", sum...)
 		}
 	}
+	if !signed && (op == token.XOR || op == token.AND || op == token.OR) {
+		// wide unsigned operands: an uninterpreted function of the two values with the facts of smt.go (wideBitAxioms)
+		name := map[token.Token]string{token.XOR: "ixor", token.AND: "iand", token.OR: "ior"}[op] + fmt.Sprint(w)
+		c.d.fun(name, []string{"Int", "Int"}, "Int")
+		if c.wideBitFns == nil {
+			c.wideBitFns = map[string]int{}
+		}
+		c.wideBitFns[name] = w
+		return app(name, "Int", x, y)
+	}
 	panic(unsupported("int-mode operator " + op.String() + " (use mode bv)"))
 }
 
@@ -969,6 +988,11 @@ func fpOf(bits *T, w int) *T {
 func (c *ctx) ix(off, k *T) *T {
 	if c.bv {
 		return app("bvadd", c.intSort(), off, k)
+	}
+	if a, ok := numeralValue(off); ok {
+		if b, ok2 := numeralValue(k); ok2 && off.sort == "Int" && k.sort == "Int" {
+			return c.intConstBig(new(big.Int).Add(a, b), 64)
+		}
 	}
 	c.usesIx = true
 	// a view s[c:...] indexes from (+ off(s) c): for ground accesses also put the twin term ix(off(s), c+k)
